@@ -22,6 +22,10 @@ pub fn generate(r: &mut Rng, tier: &str, emit: &mut dyn FnMut(String)) {
             emit(gen_half_known(r));
             continue;
         }
+        if i % 10 == 8 {
+            emit(gen_dropped_receiver(r));
+            continue;
+        }
         if i % 3 == 0 {
             // silent network: the scheduler model predicts these exactly
             let s = crate::c19::gen_silent(r).replacen("sim C19", "sim C13", 1);
@@ -125,6 +129,71 @@ pub fn gen_half_known(r: &mut Rng) -> String {
         _ => {}
     }
     now += 4000;
+    cmds.push(format!("run {}", now));
+    format!("sim C13 {}", cmds.join(" ; "))
+}
+
+/// The client drops the receiver of a search and stops the search afterwards (or not at all):
+/// the daemon's sends on that channel fail.  Stopping must still end the queries and forget the
+/// cached records - a later browse of the type starts from an empty cache.  Outside the client
+/// model's fragment (`dropchan`): judged by the monitors.
+pub fn gen_dropped_receiver(r: &mut Rng) -> String {
+    let mut cmds: Vec<String> = vec![format!("daemon {}", ifaces_of(0, false))];
+    cmds.push("ipint 0 100000".to_string());
+    let mut now = 1_000_000u64;
+    cmds.push(format!("run {}", now));
+    let inst = gen_inst(r, 0);
+    let t = Ttls { ptr: 4500, srv: 120, txt: 4500, addr: 120 };
+    let recs = recs_of(&inst, &t, true);
+    cmds.push(format!("browse 0 1 {}", hx(&inst.ty)));
+    let resolve_too = r.chance(1, 3);
+    if resolve_too {
+        cmds.push(format!("resolve 0 5 {} none", hx(&inst.host)));
+    }
+    cmds.push(format!("run {}", now));
+    match r.below(3) {
+        0 => cmds.push(format!("inject 0 2 1 192.168.1.50 5353 {}", response(&recs, &[]))),
+        1 => cmds.push(format!("inject 0 2 1 192.168.1.50 5353 {}", response(&recs[..1], &recs[1..]))),
+        _ => {
+            cmds.push(format!("inject 0 2 1 192.168.1.50 5353 {}", response(&recs[..1], &[])));
+            now += 100;
+            cmds.push(format!("run {}", now));
+            cmds.push(format!("inject 0 2 1 192.168.1.50 5353 {}", response(&recs[1..], &[])));
+        }
+    }
+    now += *r.pick(&[10u64, 300, 1200]);
+    cmds.push(format!("run {}", now));
+    // the receiver goes away, before or after the stop (the control)
+    let drop_first = r.chance(3, 4);
+    if drop_first {
+        cmds.push("dropchan 0 1".to_string());
+        if r.chance(1, 2) {
+            now += *r.pick(&[0u64, 50, 700]);
+            cmds.push(format!("run {}", now));
+        }
+    }
+    let stops = r.chance(5, 6);
+    if stops {
+        cmds.push(format!("stopbrowse 0 {}", hx(&inst.ty)));
+        now += *r.pick(&[0u64, 10, 900]);
+        cmds.push(format!("run {}", now));
+    }
+    if !drop_first {
+        cmds.push("dropchan 0 1".to_string());
+    }
+    if resolve_too && r.chance(1, 2) {
+        cmds.push("dropchan 0 5".to_string());
+        cmds.push(format!("stopresolve 0 {}", hx(&inst.host)));
+    }
+    now += *r.pick(&[100u64, 2500, 9000]);
+    cmds.push(format!("run {}", now));
+    if r.chance(1, 3) {
+        cmds.push("metrics 0 9".to_string());
+    }
+    // the type is browsed again: nothing of the stopped search may be left in the cache
+    cmds.push(format!("{} 0 2 {}", if r.chance(2, 3) { "browse" } else { "browsec" }, hx(&inst.ty)));
+    cmds.push(format!("run {}", now));
+    now += *r.pick(&[1500u64, 8000]);
     cmds.push(format!("run {}", now));
     format!("sim C13 {}", cmds.join(" ; "))
 }
